@@ -450,9 +450,9 @@ func c04Worker(sh *explore.Shard) {
 // ---------------------------------------------------------------- C01
 
 type mixedCfg struct {
-	k        int
-	al       gen.TreeAlphabet
-	commitN  int
+	k       int
+	al      gen.TreeAlphabet
+	commitN int
 }
 
 // mixedScenarios enumerates the C01 product family: tree DAGs x commit shapes
